@@ -166,6 +166,37 @@ def run_translator(cfg, log):
     return nob, failed, info
 
 
+def run_consts(pid, log):
+    """Constants tie: every numeric constant of the hand-written models that stands for a Go
+    constant (spec/consts.json) is re-read from the current source with go/types and compared
+    with the model's value inside Coq.  Returns (n, failed list)."""
+    spec = os.path.join(ROOT, "spec", "consts.json")
+    if not os.path.exists(spec):
+        return 0, []
+    with open(spec) as f:
+        n = sum(1 for e in json.load(f) if pid in e.get("props", []))
+    if n == 0:
+        return 0, []
+    tool = os.path.join(HARNESS, "bin", "goconsts")
+    if not os.path.exists(tool):
+        sh(["go", "build", "-o", tool, "."], cwd=os.path.join(ROOT, "tools", "goconsts"), env=GOENV, timeout=600)
+    vf = os.path.join(GEN, "Consts_%s.v" % pid)
+    rc, out = sh([tool, "-repo", REPO, "-spec", spec, "-prop", pid, "-out", vf], cwd=ROOT, env=GOENV, timeout=600)
+    log.append(("goconsts", rc, out[-3000:]))
+    if rc != 0:
+        return n, [{"name": "constants-tie: goconsts failed", "detail": out[-600:]}]
+    rc, o = sh(["coqc", "-noglob", "-Q", COQ, "CSS", vf], cwd=COQ, timeout=600)
+    log.append(("consts " + vf, rc, o[-3000:]))
+    flat = " ".join(o.split())
+    m = re.search(r"FAILED = (\[.*?\]) : list", flat)
+    if rc != 0 or not m:
+        return n, [{"name": "constants-tie: Consts_%s.v does not compile" % pid, "detail": o[-800:]}]
+    failed = []
+    for mm in re.finditer(r'\("((?:[^"]|"")*)", "((?:[^"]|"")*)", false\)', m.group(1)):
+        failed.append({"name": "constant:" + mm.group(1), "detail": "the model's %s differs from the source: %s" % (mm.group(1), mm.group(2))})
+    return n, failed
+
+
 def run_harness(cfg, seed, tier, log):
     name = cfg["harness"]
     os.makedirs(os.path.join(HARNESS, "bin"), exist_ok=True)
@@ -304,7 +335,12 @@ def main(argv):
             kept.append(g)
     gen_failed_all, gen_failed = gen_failed, kept
     # 3. correspondence
-    rep, herr = run_harness(cfg, seed, tier, log)
+    with ThreadPoolExecutor(max_workers=1) as cex:
+        cfut = cex.submit(run_consts, pid, log)
+        rep, herr = run_harness(cfg, seed, tier, log)
+        n_const, const_failed = cfut.result()
+    n_gen += n_const
+    gen_failed = gen_failed + const_failed
     mism = {}
     shard_errors = []
     shard_times = {}
